@@ -285,9 +285,9 @@ func (in *inst) Key() string {
 
 func systems(c *cli.Ctx) []*hist.System {
 	var out []*hist.System
-	maxH := 4
+	maxH := 5
 	if c.Thorough() {
-		maxH = 5
+		maxH = 6
 	}
 	for _, lockFree := range []bool{true, false} {
 		lockFree := lockFree
@@ -301,7 +301,7 @@ func systems(c *cli.Ctx) []*hist.System {
 			names = append(names, o.name)
 		}
 		out = append(out, &hist.System{
-			Name: "list/" + fl, Alphabet: names, Merge: true, MaxDepth: 12,
+			Name: "list/" + fl, Alphabet: names, Merge: true, MaxDepth: 16,
 			New: func() hist.Instance { return newInst(ops, 2, maxH, lockFree) },
 		})
 		// depth-bounded search without merging, full alphabet on both lists (hidden state cannot hide behind the key)
